@@ -733,12 +733,12 @@ struct Pool {
     std::string tag;
     int budgetSec = 20;            // per risky call, enforced with alarm() in the child (SIGALRM kills it)
 
-    std::vector<Status *> slots;
+    std::vector<Status *> slotv;
     void init()
     {
         ::mkdir(workDir.c_str(), 0755);
-        slots.resize(workers);
-        for (auto &s : slots) {
+        slotv.resize(workers);
+        for (auto &s : slotv) {
             s = static_cast<Status *>(mmap(nullptr, sizeof(Status), PROT_READ | PROT_WRITE, MAP_SHARED | MAP_ANONYMOUS, -1, 0));
             memset((void *)s, 0, sizeof(Status));
         }
@@ -764,7 +764,7 @@ struct Pool {
             int slot = -1;
             for (int i = 0; i < workers; i++) if (!slotBusy[i]) { slot = i; break; }
             slotBusy[slot] = true; j.slot = slot;
-            Status *st = slots[slot];
+            Status *st = slotv[slot];
             st->item = j.resumeItem; st->parser = j.resumeParser; st->phase = PH_NONE; st->done = 0;
             std::string base = workDir + "/" + tag + "_b" + std::to_string(j.batch) + "_r" + std::to_string(j.resumes);
             pid_t pid = fork();
@@ -798,7 +798,7 @@ struct Pool {
             if (it == running.end()) continue;
             Job j = *it; running.erase(it);
             slotBusy[j.slot] = false;
-            Status *st = slots[j.slot];
+            Status *st = slotv[j.slot];
             std::string base = workDir + "/" + tag + "_b" + std::to_string(j.batch) + "_r" + std::to_string(j.resumes);
             ChildResult r;
             r.batch = j.batch; r.outPath = base + ".out";
@@ -812,7 +812,7 @@ struct Pool {
                 r.errText = readFile(base + ".err", 6000).toStdString();
             }
             // fold this child's shared counters into the parent-side totals
-            for (int i = 0; i < 512; i++) { if (i < 8) { if (st->counters[i] > totals[i]) totals[i] = st->counters[i]; } else totals[i] += st->counters[i]; st->counters[i] = 0; }   // slots 0..7 fold by max, the rest by sum
+            for (int i = 0; i < 512; i++) { if (i < 8) { if (st->counters[i] > totals[i]) totals[i] = st->counters[i]; } else totals[i] += st->counters[i]; st->counters[i] = 0; }   // slotv 0..7 fold by max, the rest by sum
             finished[j.batch].emplace_back(r, readFile(base + ".out"));
             if (normal) {
                 ::unlink((base + ".out").c_str()); ::unlink((base + ".err").c_str());
